@@ -1,7 +1,7 @@
 """C13 - a config-driven run equals the explicit wind -> profiles -> source -> solver pipeline.
 
 Configuration space (default first on every axis): closure {MOST, MOSTM, CONSTANT, OAAHOC}; precision;
-footprint; analytic; halo {None, 20, 13}; modes {(8,6), (4,4), (64,64)}; levels {default, output_levels
+footprint; analytic; halo {None, 20, 13, 0.0, 0}; modes {(8,6), (4,4), (64,64)}; levels {default, output_levels
 [1,3], [3,1], full_output}; forcing {ustar, z0 only, z0 and ustar}; each of ustar / mol / wind_speed /
 wind_dir scalar or list; timestamps {absent, list}; towers {1, 2 with different heights and positions};
 reference origin {present, absent}; whole numbers written as floats or as integers; source {ideal diamond, circle, point, point with src_loc,
@@ -41,11 +41,11 @@ AXES = {
     "precision": [("solver", "precision", "double")],
     "footprint": [("solver", "footprint", True)],
     "analytic": [("solver", "analytic", True)],
-    "halo": [("domain", "halo", 20.0), ("domain", "halo", 13.0)],
+    "halo": [("domain", "halo", 20.0), ("domain", "halo", 13.0), ("domain", "halo", 0.0), ("domain", "halo", 0)],
     "modes": [("domain", "modes", [4, 4]), ("domain", "modes", [64, 64])],
-    "levels": [("domain", "output_levels", [1, 3]), ("domain", "output_levels", [3, 1]), ("domain", "full_output", True)],
+    "levels": [("domain", "output_levels", [1, 3]), ("domain", "output_levels", [3, 1]), ("domain", "output_levels", [0]), ("domain", "full_output", True)],
     "forcing": [("met", "z0", 0.1), ("met", "__z0_only", 0.05)],
-    "list-wind_dir": [("met", "wind_dir", [10.0, 200.0, 300.0])],
+    "list-wind_dir": [("met", "wind_dir", [10.0, 200.0, 300.0]), ("met", "wind_dir", 0.0), ("met", "wind_dir", [0.0, 0.0, 90.0])],
     "list-ustar": [("met", "ustar", [0.3, 0.4, 0.5])],
     "list-mol": [("met", "mol", [-50.0, 1e9, 80.0])],
     "list-wind_speed": [("met", "wind_speed", [2.0, 3.0, 4.5])],
@@ -53,7 +53,7 @@ AXES = {
     "towers": [("towers", None, TWO)],
     "origin": [("domain", "__no_origin", None)],
     "integers": [("__ints", None, True)],
-    "source": [("solver", "surface_flux_shape", "circle"), ("solver", "surface_flux_shape", "point"), ("solver", "src_loc", [30.0, 20.0]), ("__user_flux", None, True)],
+    "source": [("solver", "surface_flux_shape", "circle"), ("solver", "surface_flux_shape", "point"), ("solver", "src_loc", [30.0, 20.0]), ("solver", "src_loc", [0.0, 0.0]), ("__user_flux", None, True)],
 }
 
 
@@ -195,6 +195,76 @@ def case_config(case):
     return {"v": v[:5], "nt": runs if runs else 1, "key": core.canon(case), "n": n, "obs": {"tower_step_runs_compared": runs, "towers": len(cfg.towers), "steps": cfg.met.n_timesteps}}
 
 
+MUT_OPS = ["run0", "run1", "set-wind_dir", "set-ustar", "set-halo", "edit-returned-params", "move-tower"]
+
+
+def case_mutation_history(case):
+    """ONE configuration object used over a session: runs of step 0 / 1 interleaved with in-place edits of the forcing,
+    of a domain option, of a tower, and with the caller editing the params dict a run returned.  After every edit the
+    next run must be the pipeline for the numbers the configuration holds NOW.  The expected step values come from the
+    harness' own record of those numbers (vf/oracles/metseries.py), not from the configuration object."""
+    import copy
+
+    from bldfm.config_parser import parse_config_dict
+    from bldfm.interface import run_bldfm_single
+    from bldfm.pbl_model import vertical_profiles
+    from bldfm.solver import steady_state_transport_solver as S
+    from bldfm.utils import compute_wind_fields, ideal_source
+    from vf.oracles import metseries
+
+    raw, _ = apply([("met", "wind_dir", [10.0, 200.0, 300.0]), ("met", "ustar", [0.3, 0.4, 0.5]), ("solver", "footprint", True)])
+    cfg = parse_config_dict(copy.deepcopy(raw))
+    met = copy.deepcopy(raw["met"])  # the harness' own record of the forcing
+    halo = raw["domain"].get("halo")
+    tower_xy = (cfg.towers[0].x, cfg.towers[0].y)
+    last = None
+    v = []
+    n = 0
+    bump = 0
+    for k, op in enumerate(case["ops"]):
+        if op == "set-wind_dir":
+            bump += 1
+            met["wind_dir"][0] = 40.0 + 25.0 * bump
+            cfg.met.wind_dir[0] = met["wind_dir"][0]
+        elif op == "set-ustar":
+            bump += 1
+            met["ustar"] = [0.35 + 0.02 * bump, 0.45, 0.55]
+            cfg.met.ustar = list(met["ustar"])
+        elif op == "set-halo":
+            halo = 13.0 if halo != 13.0 else 20.0
+            cfg.domain.halo = halo
+        elif op == "move-tower":
+            tower_xy = (tower_xy[0] + 10.0, tower_xy[1] + 5.0)
+            cfg.towers[0].x, cfg.towers[0].y = tower_xy
+        elif op == "edit-returned-params":
+            if last is not None:
+                for kk in list(last["params"]):
+                    last["params"][kk] = "edited-by-caller"
+        else:
+            i = int(op[-1])
+            n += 1
+            exp = metseries.steps(met)[i]
+            with warnings.catch_warnings():
+                warnings.simplefilter("ignore")
+                r = run_bldfm_single(cfg, cfg.towers[0], met_index=i)
+                u, w = compute_wind_fields(exp["wind_speed"], exp["wind_dir"])
+                z, prof = vertical_profiles(cfg.domain.nz, cfg.towers[0].z_m, (u, w), ustar=exp["ustar"], mol=exp["mol"], closure="MOST")
+                q = ideal_source((8, 6), (80.0, 90.0), src_loc=None, shape="diamond")
+                g, c, f = S(q, z, prof, (80.0, 90.0), cfg.domain.nz, modes=(8, 6), meas_pt=tower_xy, footprint=True, halo=halo, precision="single")
+            diffs = []
+            if not (np.array_equal(r["conc"], c) and np.array_equal(r["flx"], f)):
+                diffs.append("fields")
+            if any(r["params"].get(kk) != vv for kk, vv in exp.items()):
+                diffs.append("params %r" % ({kk: r["params"].get(kk) for kk in exp},))
+            if r["timestamp"] != exp["timestamp"] or r["tower_xy"] != tower_xy:
+                diffs.append("timestamp/tower_xy %r %r" % (r["timestamp"], r["tower_xy"]))
+            if diffs:
+                v.append({"sub": "mutation-history", "sig": "mutation-history/%s" % diffs[0].split()[0], "msg": "after the session %s the run of step %d differs from the pipeline for the numbers the configuration holds now (forcing %r, halo %r, tower %r) in %s" % (case["ops"][: k + 1], i, met, halo, tower_xy, "; ".join(diffs))})
+                break
+            last = r
+    return {"v": v, "nt": n >= 2, "n": 2 * n}
+
+
 HIST_OPS = [
     {"devs": []},
     {"devs": [["solver", "src_loc", [30.0, 20.0]]]},
@@ -238,3 +308,6 @@ def run(ctx):
     from vf import histories
 
     histories.run(ctx, __name__, 2 if ctx.tier == "quick" else 3)
+    md = 4 if ctx.tier == "quick" else 5
+    mh = [{"ops": list(h)} for d in range(2, md + 1) for h in itertools.product(MUT_OPS, repeat=d) if h[-1].startswith("run") and sum(o.startswith("run") for o in h) >= 2]
+    ctx.run_cases(case_mutation_history, mh, sub="config-mutation-sessions")
